@@ -407,27 +407,28 @@ class Machine:
         return {"op": "gc"}
 
     # ---- initial model ---------------------------------------------------
-    def build(self, n_spaces=3, n_cells=3, n_refs=2):
+    def build(self, n_spaces=3, n_cells=3, n_refs=2, do=None):
         rng = self.rng
+        do = do or self.do
         for _ in range(n_refs):
             op = self.g_set_ref(self.ref)
             if op:
-                self.do(op)
+                do(op)
         tries = 0
         while len(list(self.ref.all_spaces())) < n_spaces and tries < n_spaces * 4:
             tries += 1
             op = self.g_new_space()
             if op:
-                self.do(op)
+                do(op)
         for s in list(self.ref.all_spaces()):
             for _ in range(rng.choice([0, 1, 2])):
                 op = self.g_set_ref(s)
                 if op:
-                    self.do(op)
+                    do(op)
         order = list(self.ref.all_spaces())
         for rnd in range(n_cells):
             for s in order:
                 if rng.random() < 0.75:
                     op = self.g_new_cells(s)
                     if op:
-                        self.do(op)
+                        do(op)
